@@ -43,10 +43,10 @@ def cs(s):
 
 # ------------------------------------------------------------------ scenarios
 def scenario(cid, lose, mode, phase, endpoints, closing=None, mid_ms=0, bound_ms=None, drop=0, ghost="", extra=0, delay_ms=None,
-             grace_ms=None, rebalance=False, inflight_at_lost=False):
+             grace_ms=None, rebalance=False, inflight_at_lost=False, drop_clean=False):
     n = sum(len(e["listeners"]) for e in endpoints)
     return {"id": cid, "lose": lose, "mode": mode, "phase": phase, "gossip_ms": GOSSIP_MS, "grace_ms": grace_ms or GRACE_MS,
-            "rebalance": rebalance, "inflight_at_lost": inflight_at_lost,
+            "rebalance": rebalance, "inflight_at_lost": inflight_at_lost, "drop_clean": drop_clean,
             "delay_ms": delay_ms or DELAY_MS, "endpoints": endpoints, "closing": closing or (["shutdown", "ctx"] * n)[:n],
             "bound_ms": bound_ms or BOUND_MS, "mid_ms": mid_ms, "drop_reconnects": drop, "ghost": ghost, "extra": extra}
 
@@ -83,6 +83,10 @@ def builtin_corpus():
         # requests that take 3 s are in flight through the departing node: withdrawing its upstreams and announcing the
         # departure must not wait for them
         scenario("graceful-long-inflight", 0, "graceful", "inflight", [{"id": "ea", "listeners": [0, 1]}, {"id": "eb", "listeners": [0]}], delay_ms=3000),
+        # the first reconnection attempts meet a balancer that accepts and closes without an answer (a clean end of the
+        # handshake, not a reset): the listener keeps trying and ends up on a survivor
+        scenario("crash-clean-refusals", 1, "crash", "connected", [{"id": "ea", "listeners": [1, 2]}, {"id": "eb", "listeners": [1]}], drop=3, drop_clean=True),
+        scenario("graceful-clean-refusals", 0, "graceful", "connected", [{"id": "ea", "listeners": [0]}], drop=2, drop_clean=True),
         # every node runs the (never triggered) rebalance loop: shutdown still terminates
         scenario("graceful-rebalance-enabled", 1, "graceful", "connected", [{"id": "ea", "listeners": [1, 0]}], rebalance=True),
         # a 3 s request that entered at the departing node and is served by a survivor's upstream outlasts the 0.8 s grace
@@ -112,7 +116,7 @@ def gen_scenario(rng, cid, lose=None, mode=None, phase=None):
     # an earlier departure (a fourth node that left / crashed before) is still remembered by everybody in a third of
     # the scenarios: the leaver's walk over its known nodes meets it, the survivors' tables hold it
     return scenario(cid, lose, mode, phase, eps, closing, mid_ms=rng.choice([0, 1, 3, 8, -1, -1, -1]) if mode == "mid" else 0,
-                    drop=rng.choice([0, 0, 1, 3]), ghost=rng.choice(["", "", "left", "crashed"]))
+                    drop=rng.choice([0, 0, 1, 3]), ghost=rng.choice(["", "", "left", "crashed"]), drop_clean=rng.random() < 0.3)
 
 
 def matrix(rng):
